@@ -202,11 +202,54 @@ var specConsts = map[string]string{
 	"MaxUint16": "65535", "MaxUint8": "255", "MaxInt32": "2147483647", "MaxUint32": "4294967295",
 }
 
+// curName maps a variable name used in a contract to the name the variable has now, when the function's locals were
+// only renamed since the lock was taken (Gen.renames); names that still resolve are returned unchanged.
+func (e *Exec) curName(name string, env *SpecEnv) string {
+	if e.fi == nil || e.g.renames == nil {
+		return name
+	}
+	alts := e.g.renames[e.fi][name]
+	if len(alts) == 0 {
+		return name
+	}
+	resolves := func(n string) bool {
+		if env.entry != nil {
+			if _, ok := env.entry[n]; ok {
+				return true
+			}
+		}
+		if env.scopePos != 0 && env.pkg != nil {
+			if sc := env.pkg.Types.Scope().Innermost(env.scopePos); sc != nil {
+				if _, obj := sc.LookupParent(n, env.scopePos); obj != nil {
+					if v, ok := obj.(*types.Var); ok && v.Parent() != env.pkg.Types.Scope() {
+						return true
+					}
+				}
+			}
+		}
+		return false
+	}
+	if resolves(name) {
+		return name
+	}
+	for _, a := range alts {
+		if resolves(a) {
+			e.warn("contract name %s rebound to renamed variable %s", name, a)
+			return a
+		}
+	}
+	if len(alts) == 1 {
+		return alts[0]
+	}
+	return name
+}
+
 func (e *Exec) specIdent(id *ast.Ident, env *SpecEnv) (Val, types.Type) {
 	name := id.Name
 	if b, ok := env.names[name]; ok {
 		return b.V, b.T
 	}
+	name = e.curName(name, env)
 	switch name {
 	case "nil":
 		return iv("0"), types.Typ[types.UntypedNil]
@@ -787,7 +830,7 @@ func (e *Exec) specCall(c *ast.CallExpr, env *SpecEnv) (Val, types.Type) {
 			}
 			return v, t
 		case "sent":
-			name := exprText(c.Args[0])
+			name := exprTextMap(c.Args[0], func(n string) string { return e.curName(n, env) })
 			if v, ok := e.st.vars["sent:"+name]; ok {
 				return v, tInt
 			}
@@ -806,13 +849,13 @@ func (e *Exec) specCall(c *ast.CallExpr, env *SpecEnv) (Val, types.Type) {
 			}
 			return bv(tFalse), tBool
 		case "recvd":
-			name := exprText(c.Args[0])
+			name := exprTextMap(c.Args[0], func(n string) string { return e.curName(n, env) })
 			if v, ok := e.st.vars["recvd:"+name]; ok {
 				return v, tInt
 			}
 			return iv("0"), tInt
 		case "recvval":
-			name := exprText(c.Args[0])
+			name := exprTextMap(c.Args[0], func(n string) string { return e.curName(n, env) })
 			_, t := e.evalSpec1(c.Args[0], env)
 			var et types.Type
 			if t != nil {
@@ -829,7 +872,7 @@ func (e *Exec) specCall(c *ast.CallExpr, env *SpecEnv) (Val, types.Type) {
 			return e.havocVal("norecv", et), et
 		case "sentval":
 			// sentval(ch): the last value sent on ch by this function (arbitrary on paths where nothing was sent)
-			name := exprText(c.Args[0])
+			name := exprTextMap(c.Args[0], func(n string) string { return e.curName(n, env) })
 			_, t := e.evalSpec1(c.Args[0], env)
 			var et types.Type
 			if t != nil {
@@ -845,7 +888,7 @@ func (e *Exec) specCall(c *ast.CallExpr, env *SpecEnv) (Val, types.Type) {
 			}
 			return e.havocVal("nosend", et), et
 		case "closed":
-			name := exprText(c.Args[0])
+			name := exprTextMap(c.Args[0], func(n string) string { return e.curName(n, env) })
 			if v, ok := e.st.vars["closed:"+name]; ok {
 				return v, tBool
 			}
@@ -1345,6 +1388,7 @@ func (e *Exec) boxIfConcrete(v Val, t types.Type) Val {
 }
 
 func (e *Exec) isVarName(name string, env *SpecEnv) bool {
+	name = e.curName(name, env)
 	if env.entry != nil {
 		if _, ok := env.entry[name]; ok {
 			return true
